@@ -82,6 +82,11 @@ let big_limit = 30_000        (* reader model: read_string is linear in the stri
 let big_limit_writer = 400_000 (* writer model: association-list string table *)
 let is_big st = List.compare_length_with st.bytes big_limit > 0
 let is_big_writer st = List.compare_length_with st.bytes big_limit_writer > 0
+(* huge mappings (tens of thousands of classes / members): the mapper model builds association lists
+   (quadratic), so only the specification answers; parameter queries (quadratic deduplication) are
+   left to the implementation's own mapper = cache comparison *)
+let huge_limit = 1_500_000
+let is_huge st = List.compare_length_with st.bytes huge_limit > 0
 
 (* answers of the model's cache reader on a parsed cache *)
 let c_class pc name = match cache_of pc with None -> "noparse" | Some c -> tok_of_ostr (c_remap_class c name)
@@ -111,21 +116,22 @@ let rec handle (line : string) : string =
   | ["K"; c] ->
     let c = str_of_hex c in
     "s=" ^ tok_of_ostr (sclass (Lazy.force st.rs) c) ^
-    ";m=" ^ tok_of_ostr (m_remap_class (Lazy.force st.mp) c) ^
+    ";m=" ^ (if is_huge st then "SKIPPED" else tok_of_ostr (m_remap_class (Lazy.force st.mp) c)) ^
     ";c=" ^ (if is_big st then "SKIPPED" else c_class (Lazy.force st.pc) c)
   | ["T"; c; m] ->
     let c = str_of_hex c and m = str_of_hex m in
     "s=" ^ show_pair (smethod (Lazy.force st.rs) c m) ^
-    ";m=" ^ show_pair (m_remap_method (Lazy.force st.mp) c m) ^
+    ";m=" ^ (if is_huge st then "SKIPPED" else show_pair (m_remap_method (Lazy.force st.mp) c m)) ^
     ";c=" ^ (if is_big st then "SKIPPED" else c_method (Lazy.force st.pc) c m)
   | ["L"; c; m; l; f] ->
     let c = str_of_hex c and m = str_of_hex m and l = n_of_dec l and f = ostr_of_tok f in
     "s=" ^ show_frames (sline (Lazy.force st.rs) c m l f) ^
-    ";m=" ^ show_oframes (m_remap_frame_lines (Lazy.force st.mp) c m l f) ^
-    ";n=" ^ show_oframes (m_remap_frame_lines (Lazy.force st.mp0) c m l f) ^
+    ";m=" ^ (if is_huge st then "SKIPPED" else show_oframes (m_remap_frame_lines (Lazy.force st.mp) c m l f)) ^
+    ";n=" ^ (if is_huge st then "SKIPPED" else show_oframes (m_remap_frame_lines (Lazy.force st.mp0) c m l f)) ^
     ";c=" ^ (if is_big st then "SKIPPED" else c_lines (Lazy.force st.pc) c m l f)
   | ["P"; c; m; p] ->
     let c = str_of_hex c and m = str_of_hex m and p = str_of_hex p in
+    if is_huge st then "s=SKIPPED;m=SKIPPED;c=SKIPPED" else
     "s=" ^ show_pframes (sparams (Lazy.force st.rs) c m p) ^
     ";m=" ^ show_pframes (m_remap_frame_params (Lazy.force st.mp) c m p) ^
     ";c=" ^ (if is_big st then "SKIPPED" else c_params (Lazy.force st.pc) c m p)
@@ -174,6 +180,8 @@ let rec handle (line : string) : string =
     let sub = List.filteri (fun i _ -> i >= a && i < b) st.bytes in
     let u = hex_of_str (mapping_uuid sub) in
     "u=" ^ u ^ ";again=" ^ u ^ ";parent_stable=1"
+  | ("KI" | "TI" | "PI") :: _ -> "s=SKIPPED;m=SKIPPED;c=SKIPPED"
+  | "LI" :: _ -> "s=SKIPPED;m=SKIPPED;n=SKIPPED;c=SKIPPED"
   | "ZI" :: _ -> "SKIPPED"   (* implementation-only sink run on a very large mapping: the property's own clauses are evaluated on the implementation's answer *)
   | "Z" :: mx :: script ->
     let mx = n_of_dec (String.sub mx 4 (String.length mx - 4)) in
